@@ -22,6 +22,11 @@ type State struct {
 	bc       *boundCache   // variable bounds read off the path condition (see bounds.go)
 }
 
+type recDef struct {
+	params []*Term
+	body   *Term
+}
+
 // borrowRec: a slice returned by a callee whose contract marks it `borrowed`: it may alias storage of
 // the callee's side (for example the buffer behind an encoding.BinaryMarshaler), so at every return
 // its real memory [off, off+cap) must hold what it held when it was handed out.
@@ -106,6 +111,7 @@ type Obl struct {
 	Trivial bool
 	DefNames []string
 	DefBodies []*Term
+	RecDefs  map[string]*recDef // recursive spec functions: parameters and body (for the unfold-once attempt)
 	Real bool // print integers as reals (field-congruence mode)
 	realPrint bool
 	ExtraAsserts []string
@@ -165,6 +171,8 @@ type Exec struct {
 	usedLemmas map[string]bool
 	axiomsOnly bool
 	defTerms   map[string]*Term // bodies of the SMT-defined spec functions (for symbol collection)
+	defParams  map[string][]*Term
+	defIsRec   map[string]bool
 	quiet      int // > 0: obligations are not recorded (dry runs of loop bodies)
 	fieldModulus *Term // field-congruence mode: big.Int Mod by this term is the identity
 }
